@@ -169,34 +169,32 @@ Theorem mm_current_reproduces : forall (K : nat) (roots : list tree) (anc : opti
   consistent_list roots (map (fun r => paint tr r a) roots) = true.
 Proof. exact mm_current_reproduces_lemma. Qed.
 
-(* L2 = L0 (partial).  Full statement wanted: for arrays [ta] of a marginal tree and genotypes
-   [g] of the right length, [c_map_mutations_gen false ta g anc] (the C function over the
-   arrays: entry checks, initialisation loop, explicit-stack postorder, Hartigan loop,
-   ancestral state choice, explicit preorder stack with transition_parent) equals [mm_rose]
-   on [rose_of_arrays ta g].
-   Proved here: exactly that, from two facts that are *evaluated* on every generated case
-   ([l2_side_conditions] inside [check_case]) but not proved: (i) the initialisation loop
-   gives every node of the forest its initial set and leaves the virtual root at 0
-   ([init_okb], [get os0 N = Ok 0]); (ii) [postorder_from_virtual_root] (the model of
-   tsk_tree_postorder_from) returns the left-to-right postorder of the forest followed by the
-   virtual root.  What is missing for the full statement: proofs of (i) (needs: the sample
-   list has no duplicates and agrees with the flags) and (ii) (the postorder_parent trick of
-   trees.c 6879-6893), and that ids are distinct / fit the arrays ([nodupb], [fsize]). *)
-Theorem c_map_mutations_eq_rose_partial :
-  forall (ta : tree_arrays) (g : list Z) (anc : option Z) (os0 : list N) (na0 nm : Z) (roots : list tree),
-  init_sets false (ta_samples ta) g (repeat 0%N (S (length (ta_flags ta)))) 0%Z 0%Z = Ok (os0, na0, nm) ->
+(* L2 = L0, for both variants of the code (fx = false: the pinned code; fx = true: the repaired
+   handling of missing samples).  For arrays [ta] that are consistent with the forest
+   [rose_of_arrays] reads off left_child / right_sib / flags ([arrays_okb]: right_child /
+   left_sib / parent describe the same forest, roots have parent -1, the sample list has no
+   duplicates and only flagged nodes, node ids are distinct and fit the arrays — the
+   representation invariant of a tskit tree, property C01's business, evaluated on every
+   generated case inside [check_case]), the C function over the arrays
+   ([c_map_mutations_gen fx]: entry checks, initialisation loop 7252-7266, explicit-stack
+   postorder of tsk_tree_postorder_from with its postorder_parent trick, Hartigan loop,
+   ancestral state choice, explicit preorder stack with transition_parent and the transition
+   counter) returns exactly what the rose-tree model returns ([mm_rose], resp.
+   [mm_rose_fixed]), so every theorem above speaks about the array code.
+   ([init_sets ... = Ok] says the genotypes passed the entry checks; [sets_nonzero] follows
+   from [mm_total]'s hypotheses.) *)
+Theorem c_map_mutations_eq_rose :
+  forall (fx : bool) (ta : tree_arrays) (g : list Z) (anc : option Z) (os0 : list N) (na0 nm : Z)
+         (roots : list tree),
+  init_sets fx (ta_samples ta) g (repeat 0%N (S (length (ta_flags ta)))) 0%Z 0%Z = Ok (os0, na0, nm) ->
   nm <> 0%Z ->
   match anc with Some a => (0 <= a < c20_hartigan_max_alleles)%Z | None => True end ->
   rose_of_arrays ta g = Ok roots ->
-  forallb (init_okb false os0) roots = true ->
-  get os0 (zlen (ta_flags ta)) = Ok 0%N ->
-  postorder_from_virtual_root ta = Ok (flat_map post_ids roots ++ [zlen (ta_flags ta)]) ->
-  nodupb (forest_ids roots) = true ->
-  (fsize roots < length (ta_left_child ta))%nat ->
-  forallb (sets_nonzero (Z.to_nat (final_num_alleles na0 anc))) roots = true ->
-  c_map_mutations_gen false ta g anc =
-  match mm_rose (Z.to_nat (final_num_alleles na0 anc)) roots (option_map Z.to_N anc) with
+  arrays_okb ta roots = true ->
+  forallb (sets_nonzero (Z.to_nat (final_num_alleles na0 anc))) (if fx then map demote roots else roots) = true ->
+  c_map_mutations_gen fx ta g anc =
+  match (if fx then mm_rose_fixed else mm_rose) (Z.to_nat (final_num_alleles na0 anc)) roots (option_map Z.to_N anc) with
   | Some (a, tr) => Ok (Z.of_N a, tr)
   | None => Err ERR_NONTERMINATION
   end.
-Proof. exact c_map_mutations_eq_rose_partial_lemma. Qed.
+Proof. exact c_map_mutations_eq_rose_lemma. Qed.
